@@ -238,15 +238,26 @@ func hopsSx(hs []*result.TracerouteHop) sx {
 
 var nwPorts *sharedNet // the network of the scenario being run (labs run one scenario at a time)
 
-func runShared(t *testing.T, runs []sharedRun, filterOn bool) (sx, sx, int, int) {
+func runShared(t *testing.T, runs []sharedRun, filterOn bool, slow int) (sx, sx, int, int) {
 	outs := make([]sx, len(runs))
+	spans := make([][2]int64, len(runs)) // virtual start and end instant of every run (ns since the scenario began)
 	probes, replies := 0, 0
 	synctest.Test(t, func(t *testing.T) {
+		bubbleStart := time.Now()
 		f := &wireFactory{}
 		nw := &sharedNet{}
 		nwPorts = nw
 		f.onNew = func(h *wireHandle) {
 			h.src.applyFilter = filterOn
+			switch slow {
+			case 1:
+				// every write returns 20 ms after the probe left: the reply is back before SendProbe has returned
+				h.snk.writeDelay = 20 * time.Millisecond
+			case 2:
+				// the socket takes the bytes only 3 ms after WriteTo was entered (it was not writable): other runs build
+				// and send their probes meanwhile
+				h.snk.acceptDelay = 3 * time.Millisecond
+			}
 			h.snk.onWrite = nw.onProbe
 			nw.add(h)
 		}
@@ -269,6 +280,7 @@ func runShared(t *testing.T, runs []sharedRun, filterOn bool) (sx, sx, int, int)
 				if c.proto == "tcp" {
 					p.Port = 443
 				}
+				t0run := time.Since(bubbleStart)
 				if c.group == 0 {
 					status := 0
 					var res *result.TracerouteRun
@@ -289,6 +301,7 @@ func runShared(t *testing.T, runs []sharedRun, filterOn bool) (sx, sx, int, int)
 					} else {
 						outs[j] = L(sxInt(int64(status)), sxList{})
 					}
+					spans[j] = [2]int64{int64(t0run), int64(time.Since(bubbleStart))}
 					return
 				}
 				p.TracerouteQueries, p.E2eQueries = c.queries, c.e2e
@@ -308,6 +321,7 @@ func runShared(t *testing.T, runs []sharedRun, filterOn bool) (sx, sx, int, int)
 					}
 				}()
 				for q := 0; q < c.queries; q++ {
+					spans[j+q] = [2]int64{int64(t0run), int64(time.Since(bubbleStart))}
 					if res != nil && q < len(res.Traceroute.Runs) {
 						outs[j+q] = L(sxInt(int64(status)), hopsSx(res.Traceroute.Runs[q].Hops))
 					} else {
@@ -358,15 +372,21 @@ func runShared(t *testing.T, runs []sharedRun, filterOn bool) (sx, sx, int, int)
 		}
 		return o
 	}
+	withSpan := func(o sx, sp [2]int64) sx {
+		if l, ok := o.(sxList); ok {
+			return append(append(sxList{}, l...), sxInt(sp[0]), sxInt(sp[1]))
+		}
+		return o
+	}
 	in, out := sxList{}, sxList{}
 	for j, c := range runs {
 		in = append(in, L(sxInt(int64(protoCode(c.proto))), sxBool(c.v6), sxInt(int64(c.last)), sxInt(int64(c.startMs)), sxInt(int64(c.group))))
 		if outs[j] == nil {
 			outs[j] = L(sxInt(3), sxList{})
 		}
-		out = append(out, heldOf(outs[j], c.proto))
+		out = append(out, withSpan(heldOf(outs[j], c.proto), spans[j]))
 	}
-	return L(sxInt(18), sxBool(filterOn), in), L(out...), probes, replies
+	return L(sxInt(18), sxInt(b2i(filterOn)+2*int64(slow)), in), L(out...), probes, replies
 }
 
 func sharedScenarios(r *rng, n int, w *caseWriter, tags map[string]int, t *testing.T) {
@@ -401,7 +421,9 @@ func sharedScenarios(r *rng, n int, w *caseWriter, tags map[string]int, t *testi
 			runs = append(runs, c)
 		}
 		filterOn := r.intn(4) != 0
-		in, out, probes, replies := runShared(t, runs, filterOn)
+		slow := []int{0, 0, 1, 2}[r.intn(4)]
+		in, out, probes, replies := runShared(t, runs, filterOn, slow)
+		tags[fmt.Sprintf("shared_slow_socket_mode_%d", slow)]++
 		w.put(in, out)
 		tags["shared_scenarios"]++
 		tags["shared_runs"] += len(runs)
